@@ -387,6 +387,34 @@ func ruleGRDfw(w *World, r *Report) {
 			emptyEdges[k] = true
 		}
 	}
+	// the prompt extractor must not give up on the whole body because some OTHER message has an unexpected shape:
+	// it decodes into an untyped value and picks what it needs (a struct with string-typed content fields makes
+	// json.Unmarshal fail on a multimodal or tool message anywhere in the history, the prompt comes back empty and
+	// the empty-prompt exemption forwards the request unchecked)
+	if ep := w.Func(proxyPkg, "extractPrompt"); ep != nil {
+		epf := w.SSAFunc(ep.Obj)
+		k := 0
+		for _, in := range findInstrs(epf, func(in ssa.Instruction) bool { _, ok := isStdCall(in, "encoding/json", "Unmarshal"); return ok }) {
+			k++
+			c := in.(*ssa.Call)
+			tolerant := false
+			tgt := c.Call.Args[1]
+			if mi, ok := tgt.(*ssa.MakeInterface); ok {
+				if pt, ok := mi.X.Type().Underlying().(*types.Pointer); ok {
+					switch pt.Elem().Underlying().(type) {
+					case *types.Map, *types.Interface:
+						tolerant = true
+					}
+				}
+			}
+			r.Cond(tolerant, "GRD-fw", fmt.Sprintf("extractPrompt:decode#%d:shape-tolerant", k), w.Pos(c.Pos()), "the body is decoded into an untyped map/any", "extractPrompt decodes the body into a typed struct: one message with non-string content (a multimodal part list, a tool result) anywhere in the history makes the decode fail, the prompt comes back empty, and ServeHTTP forwards the request under its empty-prompt exemption — a latest user message that matches a deny pattern reaches the model")
+		}
+		if k == 0 {
+			r.Und("GRD-fw", "extractPrompt:decode", w.Pos(ep.Decl.Pos()), "extractPrompt no longer decodes the body with json.Unmarshal")
+		}
+	} else {
+		r.Und("GRD-fw", "anchor:extractPrompt-func", "", "anchor lost")
+	}
 	isStatic := func(in ssa.Instruction) bool { return isModCall(in, proxyPkg, "AIProxy.checkStaticFirewall") }
 	statics := findInstrs(fn, isStatic)
 	for i, sc := range statics {
